@@ -675,6 +675,10 @@ class PortalRun:
                 self.flags.add("started")
             if rec.final is not None and rec.fut is not None:
                 self._monitor_answer(rec)
+            if c == F_BLOCK and rec.fut is not None and rec.fut.cancelled() and rec.fcancel_true \
+                    and rec.cancel_handle is None and self.blocked(rec) and not self.interruptible(rec):
+                self.mon.append(f"call {k} blocks although its caller cancelled its future and no cancellation is "
+                                f"on its way to the task")
         if code == STOP and a:
             self.flags.add("stop_cancel_remaining")
         if code == HRESUME and res == 8:
